@@ -221,6 +221,9 @@ func buildInputs(seed uint64, tier string) ([]input, error) {
 		layoutStream(b, r, docs, cfg.layoutBreaks)
 	}
 
+	// boundary code points and invalid UTF-8 bytes, enumerated
+	codepointStream(b, tier == "thorough")
+
 	// multiplexing corner cases
 	r = root.sub("mux")
 	muxStream(b, r, cfg.muxCases)
